@@ -942,7 +942,8 @@ def gen_c13_transparent(r):
         muts = []
         for _ in range(r.choice([0, 1, 1, 2])):
             muts.append(GT.mutate(r, base, files, {}, r.choice(['content-same-size', 'content-other-size', 'delete', 'stray', 'stray-hidden', 'mtime', 'fifo'])))
-        if not name_clash(t, written):
+        # (a second, WRONG reference to a sub-Manifest is not a layout question: re-writing the references with true digests would repair it)
+        if not name_clash(t, written) and not any(str(x).endswith(':wrong') for x in base.meta.get('double_references', [])):
             break
     base.meta['mutations'] = muts
     base.meta['order_seed'] = r.randint(0, 5)
